@@ -302,3 +302,23 @@ func VerifC19SortStability() {
 	c19ModelSort(ref, less)
 	c19Agree(m, ref)
 }
+
+// VerifC03FromMap (C03): FromMap ranges over a Go map; its result must not depend on the order.
+func VerifC03FromMap() {
+	src := map[string]int{}
+	n := 2 + v.Choose(2)
+	var keys []string
+	for i := 0; i < n; i++ {
+		k := c19Key("k")
+		for _, prev := range keys {
+			v.Assume(prev != k)
+		}
+		keys = append(keys, k)
+		src[k] = v.Int("v", 0, 100)
+	}
+	v.SymOrder(true)
+	a := FromMap(src)
+	b := FromMap(src)
+	v.SymOrder(false)
+	v.Assert(a.Equal(b), "C03: FromMap depends on map iteration order")
+}
